@@ -205,7 +205,7 @@ ALL = ["C%02d" % i for i in range(1, 21)]
 # Sentences added when rules were strengthened against the second round of seeded changes.
 ADDENDA = {
     "C10": " The signed state reaches the document's validation: the context handed on derives from the one built where signatures exist (R5); every signature is tried against the keys (R6, shared with C09-R4). The CLI and bulk build path removes signatures before it validates, not after (R7). Every algorithm a private key can sign with is accepted when signatures are parsed: a signed envelope can be read back (R8, shared with C09-R8).",
-    "C13": " A regime's identity normaliser applies the common normalisation before its own steps (R3). A direct call of an asserting validation function passes a value of an asserted type (R4). A regime normaliser does not assign the identity's country after the common normalisation has trimmed the prefix of the previous one (R3, #country-before-common). A test of the identity's country inside a regime package that names the regime's own code names its alternative codes too — identities filed under XI or EL reach the same validator (R5). The alternative country codes a regime is registered under are the ones its published definition lists (R6, shared with C19-R5).",
+    "C13": " A regime's identity normaliser applies the common normalisation before its own steps (R3). A direct call of an asserting validation function passes a value of an asserted type (R4). A regime normaliser does not assign the identity's country after the common normalisation has trimmed the prefix of the previous one (R3, #country-before-common). A test of the identity's country inside a regime package that names the regime's own code names its alternative codes too — identities filed under XI or EL reach the same validator (R5). The alternative country codes a regime is registered under are the ones its published definition lists (R6, shared with C19-R5). Every party member — and every member that has its own Normalize and holds a party or tax identity — of a structure with a Normalize method is handed to tax.Normalize there (R7).",
     "C19": " Every $regime enumeration under data/schemas equals the countries and alternative codes of the regime definition literals of the code, every $addons enumeration the addon keys, and data/regimes/<cc>.json lists the literal's alternative codes (R5). The registered definitions are not rewritten at run time (R6, shared with C15). The shipped currency enumeration equals the definitions the library loads (R7, shared with C11-R10).",
     "C17": " Also decided (R4): every sign flip of Invoice.Invert applies to every row, every walked array has one, row-own inputs from which a flipped amount is recomputed (explicit base; rate and own quantity) and totals members the calculation takes as given (rounding) are flipped too, and the invoice is recalculated afterwards; the row-grouping predicate is the symmetric group identity (R5, shared with C02-R1). A loop over lines, discounts, charges or their nested rows carries nothing from one row to the next except a fold, a constant flag, a search exit, an extremum or a per-iteration temporary (R6); nothing reachable from the calculation decides by the sign of an amount — IsPositive, IsNegative, Compare, Abs or an ordered comparison of a raw value (R7). The grouping predicate includes Extensions.Equals being two-sided (R5 includes C02-R6). Loops over preceding references are row loops (R6). No function of bill, tax, pay or org stores through a *num.Amount or *num.Percentage parameter (R8).",
     "C07": " The escapes are decided by evaluating one iteration of the string encoder's loop for each of the 128 ASCII bytes: what is written, and where the current position and the start of the pending run are left, match README §8 (safe bytes untouched, seven two-character escapes, \\u00XX upper-case otherwise). Invalid UTF-8 is recognised by evaluating the loop for the three answers of DecodeRuneInString (R6); keys and string values reach the output only through encodeString (R8). An array writes every element, null or not (R9). The exported entry points of package c14n hand every value to the canonical writer: none returns bytes produced by a value's own marshaller (R10).",
@@ -216,7 +216,7 @@ ADDENDA = {
     "C03": " Also decided: the base a percentage line discount/charge is taken of is, by reaching definitions, the rule-rounded line sum or last assigned from ApplyRoundingRule, and the sum handed in is itself rule-rounded; no running sum in bill/tax is the argument (instead of the receiver) of Add, which would give it the addend's precision (R4). Included-tax removal ends with a recalculation (R5, shared with C17-R3); each rate row's amount is Percent.Of(its stored Base) (R6). Payable is complete (rounding included) before Due, advances and due dates are derived from it (R7); the document's own rounding rule reaches the rule variable on every path where it is set, whatever else is set (R8). A row's presentation precision is at least the currency's (R9). Sibling document operations that recalculate a shallow copy of the receiver (ConvertInto of Invoice, Order, Delivery) detach the same members first — Totals above all, which the calculation fills in place (R10). A regime or addon normaliser creates an optional object of the document (the tax object) only where it is known to be nil, so what the document said in it — the rounding rule — reaches the calculation (R11). An advance's amount rewritten outside the calculation with Upscale(k) comes back with Downscale(k) (R12).",
     "C04": " Also decided (R7): no calculation function keeps a plain value computed by a module function from document fields across a statement whose callees rewrite those fields and then uses it (field read/write summaries over the call graph) — the first pass would see the data as typed, the repeat as normalised. Totals.round rewrites only members that Totals.reset clears (R8); an amount derived from a percentage is derived again on every pass, never conditioned on its own current value (R9). CleanExtensions never returns the map it was given (R11). Document-level normalisers take no decision on member text that the member's own normalisation rewrites afterwards (R12); the bill calculation writes no tax combo member that combo normalisers read (R13). A regime or addon function that takes a combo decides the same for an empty country and for the package's own country, which the calculation blanks afterwards — every condition and switch on tax.Combo.Country is evaluated under both values over all assignments of its other terms (R14). Addon requirements are one level deep unless tax.Addons.normalizeAddons expands them transitively (R15). schema.Object decodes into a payload obtained for this parse on every path (R16). A Normalize method assigns no member its regime and addon normalisers read after it has run them on the receiver (R17).",
     "C08": " Also decided: the schema ID of raw bytes is a member of a value decoded by encoding/json with its error checked (member-order independent; R5), and the canonical string encoder advances its segment cursor only after flushing the pending segment and flushes the tail (R6) — no text is left out of the digest input. Custom UnmarshalJSON methods hand the bytes to encoding/json and never work on the raw text (R7: string escapes are decoded) and do not re-order decoded members (R8). No validator of the envelope or of a document type writes a member of a document type (R9); the canonical form keeps every array element (R10). Validation — the Validate methods of the document types and the Validator of every regime and addon definition — writes no member of a document, including through a map handed to a helper that stores into its parameter and through a local that holds the member's map (R9). Nothing validation reaches re-orders in place (sort.*, slices.Sort*, slices.Reverse) a slice that comes out of the validated value (R9).",
-    "C09": " The contents-only branch must test the caller's own key list (the parameter must not have been replaced by a filtered copy). A public-key parameter outside dsig is handed on, ranged over or kept (R7); every algorithm a private key can sign with is in the list accepted when signatures are parsed (R8).",
+    "C09": " The contents-only branch must test the caller's own key list (the parameter must not have been replaced by a filtered copy). A public-key parameter outside dsig is handed on, ranged over or kept (R7); every algorithm a private key can sign with is in the list accepted when signatures are parsed (R8). The current header may be a local or helper parameter that is the receiver's Head at every call site; helpers that hand the checked payload back with a verdict count as protected routines.",
     "C11": " Also decided: closed enumerations that JSONSchemaExtend publishes from a package-level table are enforced by the type's validator with validation.In over the same table (R4); the $regime and $addons enumerations are published from the same definition fields the registries take their lookup keys from (R5); patterns assigned in JSONSchemaExtend fall under R2 as well. Keyword values of every published file have the JSON type the draft requires (enum is an array, ...); a type's own validator does not skip a member whose type publishes a pattern; nullable members that validation does not require are given a non-nil value by every library function that allocates their struct (producer clause of R3); alternative regime codes outside the tax-country-code enumeration are canonicalised by every document's Calculate. Lookups deciding membership of a published closed list use the value as given (R6); bounds published for a property are enforced by its validation rules (R7). Arrays of objects reject null entries (R8). R2's not-skipped clause now covers the types of addon and regime packages (complements). Type-level patterns of the shipped schemas equal the constants the code publishes (R9); the shipped currency enumeration equals the definitions loaded from data/currency (R10).",
     "C12": " The table value is chosen with the combo's own extensions and every return where no value applies is an error (R4). The order validator is evaluated for first entry / earlier / same / later / undated-after-dated entries (no error, no error, error, error, no error and no nil dereference); the tax date is decided by evaluating the calculation up to the calculator with and without a value date. The document interface's value-date / issue-date getters return the document's own field of that name on every path. The rate tables cannot be written through a calculated document or at run time (R7, shared with C15). Every taxable line goes through the rate lookup (R8, shared with C02-R8).",
     "C14": " Also decided: the num text parsers evaluate 10^e only where e <= 18 is known (short-circuit or dominating guard) — no wrapped or zero power in a range check (R8); a slice of definitions built from registry lookups holds no unchecked lookup result when some caller ranges over it and reads a field of the element without a nil test (R9). Possibly-nil input pointers — elements of the envelope's signature list, pointer arguments of exported Envelope methods — are nil-tested before a dereferencing use, followed into same-package callees (R10). Elements of the documents' slices of pointers (a JSON null in an array) are nil-tested before their first dereference — range values, X[i], slices handed to functions or returned by getters, lists asserted by validation.By functions, receivers of named list types, elements appended to lists of interface values; followed into callees — in the core packages bill, pay, org, tax, head, note, schema, cbc, currency, regimes/common and the root package; regime and addon packages are not covered (R11). tax.Normalize is evaluated for a nil pointer in a non-nil interface and must return before calling anything on it (R1). Every single-value type assertion has a settled dynamic type (R12); the rate-row matching predicates dereference no nil member on any combination (R13). R11 also follows document slices into members of rule objects (&exchangeRateValidation{rates: rates}) and now covers the regime and addon packages. A map member of a module map type is written only where known non-nil (R14); R10 follows pointers across packages and into the methods they are receivers of; R11 also judges elements used in place (X[i].F). Optional pointer members of document structures are nil-tested before they are dereferenced, in everything the operations reach: field selection, value-receiver and non-nil-safe methods, `*m`, members handed to functions that dereference their parameter, locals that hold the member, and validation.By functions that dereference the asserted pointer without an unconditional Required before them; call sites vouch for unexported helpers, and the document type's own Required members for what only regime/addon validators reach (R15). A constant index into a slice member of a document is covered by a length fact (R16). No registered schema type re-enters Object.UnmarshalJSON on the same bytes unless the payload's type is tested first (R17). Function-valued members of definitions (Normalizer, Validator, Filter) are nil-tested before they are called or listed for calling (R18); the exponent of every shipped currency definition keeps 10^e within int64 (R19); R10 follows the elements of variadic pointer lists (Verify(nil)).",
